@@ -64,6 +64,10 @@ pub fn static_family() -> Vec<(String, Program)> {
                     vec![let_(Pat::Tuple(vec![Pat::id("c"), Pat::id("t")]), Ty::tup(vec![Ty::Bool, u(16)]), jet("add_16", vec![jet("left_pad_low_8_16", vec![var("e")]), var("acc")]))],
                     Some(var("t")),
                 ),
+                // step functions that ignore their element / context / counter: they stay well-formed functions when a
+                // parameter is dropped or added, so only the fold / for_while signature rule can reject the mutant
+                f("keep", vec![("e", u(8)), ("acc", u(16))], Some(u(16)), vec![], Some(var("acc"))),
+                f("first", vec![("acc", u(8)), ("ctx", u(8)), ("i", u(2))], Some(Ty::either(u(8), u(8))), vec![], Some(Expr::Left(Box::new(var("acc"))))),
                 f(
                     "step",
                     vec![("acc", u(8)), ("lim", u(8)), ("i", u(2))],
@@ -89,6 +93,10 @@ pub fn static_family() -> Vec<(String, Program)> {
                         let_(Pat::id("r"), Ty::either(u(16), u(8)), call(CallName::ForWhile("step".into()), vec![par("START"), dec(2)])),
                         let_(Pat::id("q"), u(16), call(CallName::UnwrapLeft(u(8)), vec![var("r")])),
                         s(assert_(jet("eq_16", vec![var("q"), dec(2)]))),
+                        let_(Pat::id("kept"), u(16), call(CallName::Fold("keep".into(), 4), vec![var("l"), dec(9)])),
+                        s(assert_(jet("eq_16", vec![var("kept"), dec(9)]))),
+                        let_(Pat::id("fst"), Ty::either(u(8), u(8)), call(CallName::ForWhile("first".into()), vec![dec(5), dec(6)])),
+                        s(assert_(jet("eq_8", vec![call(CallName::UnwrapLeft(u(8)), vec![var("fst")]), dec(5)]))),
                     ],
                     None,
                 ),
